@@ -15,16 +15,23 @@ import (
 func genCase(rt *rapid.T) Case {
 	g := rapid.IntRange(2, 4).Draw(rt, "goroutines")
 	prog := make([]string, g)
+	two := rapid.IntRange(0, 3).Draw(rt, "two-mutexes") == 1
 	for i := range prog {
 		n := rapid.IntRange(1, 3).Draw(rt, "ops")
 		var sb strings.Builder
 		for k := 0; k < n; k++ {
 			// Lock twice as likely as TryLock: waiters are what makes schedules interesting
+			op := byte('L')
 			if rapid.IntRange(0, 2).Draw(rt, "op") == 2 {
-				sb.WriteByte('T')
-			} else {
-				sb.WriteByte('L')
+				op = 'T'
 			}
+			if two && rapid.Bool().Draw(rt, "second") {
+				op += 'a' - 'A' // the same operation on the second mutex instance
+			}
+			sb.WriteByte(op)
+		}
+		if two && i == g-1 && rapid.Bool().Draw(rt, "hold-for-good") {
+			sb.WriteByte('h') // the last goroutine ends by taking the second mutex for good
 		}
 		prog[i] = sb.String()
 	}
